@@ -448,7 +448,129 @@ def oracle_user_products(ctx):
                 samples=samples, failures=failures)
 
 
+# ------------------------------------------------------------------ second-quantised problems with an elimination mask
+
+
+def sqm_problem(rng):
+    """scalar second-quantised Hamiltonian, two perturbative parameters, partial elimination mask
+    (`fully_diagonalize`) that may contain an operator absent from H_0"""
+    return dict(wb=rng.choice([2, 3, 5]), wa=rng.choice([None, None, 7]),
+                t1=rng.choice(["b2", "xb", "b2"]), t2=rng.choice(["hopNaNb", "hop", "hopNaNb"]),
+                mask=rng.choice(["hop", "hop", "hop_b2"]), c1=rng.choice(["1", "1/2", "2/3"]), c2=rng.choice(["1", "3/2", "1/3"]))
+
+
+def sqm_build(prob):
+    import warnings
+    import sympy
+    from sympy.physics.quantum import Dagger
+    from sympy.physics.quantum.boson import BosonOp
+    from pymablock import block_diagonalize
+    from pymablock.number_ordered_form import NumberOperator
+
+    a, b = BosonOp("a"), BosonOp("b")
+    l1, l2 = sympy.symbols("lambda_1 lambda_2", positive=True)
+    Nb = NumberOperator(b)
+    hop = a * Dagger(b) + Dagger(a) * b
+    t1 = {"b2": b**2 + Dagger(b) ** 2, "xb": b + Dagger(b)}[prob["t1"]]
+    t2 = {"hopNaNb": hop + Dagger(a) * a * Nb, "hop": hop}[prob["t2"]]
+    mask = {"hop": hop, "hop_b2": hop + b**2 + Dagger(b) ** 2}[prob["mask"]]
+    H = prob["wb"] * Nb + (prob["wa"] * Dagger(a) * a if prob["wa"] else 0) \
+        + sympy.Rational(prob["c1"]) * l1 * t1 + sympy.Rational(prob["c2"]) * l2 * t2
+    with warnings.catch_warnings():
+        warnings.simplefilter("ignore")
+        return block_diagonalize(H, symbols=[l1, l2], fully_diagonalize=mask), H, mask
+
+
+def sqm_same(x, y):
+    import sympy
+    from pymablock.number_ordered_form import NumberOrderedForm
+    from pymablock.series import one, zero
+
+    if x is zero or y is zero or x is one or y is one:
+        if x is y:
+            return True
+        if x is one or y is one:
+            return False
+        x = sympy.S.Zero if x is zero else x
+        y = sympy.S.Zero if y is zero else y
+    d = NumberOrderedForm.from_expr(sympy.sympify(x) - sympy.sympify(y))
+    return all(sympy.simplify(c) == 0 for c in d.terms.values())
+
+
+SQM_ORDERS = ((1, 0), (0, 1), (1, 1))
+
+
+def sqm_check(prob, pairs):
+    """pairs: list of ((series, order), (series, order)) = (requested first, target)"""
+    import sympy
+
+    def get(outs, el):
+        try:
+            return outs[el[0]][(0, 0) + tuple(el[1])]
+        except Exception as e:  # noqa: BLE001
+            return ("exn", type(e).__name__)
+
+    def eq(x, y):
+        if isinstance(x, tuple) or isinstance(y, tuple):
+            return x == y
+        return sqm_same(x, y)
+
+    outs0, H0, mask0 = sqm_build(prob)
+    mask_before, H_before = sympy.srepr(mask0), sympy.srepr(H0)
+    fresh = {}
+    for first, target in pairs:
+        for el in (first, target):
+            key = (el[0], tuple(el[1]))
+            if key not in fresh:
+                fresh[key] = get(sqm_build(prob)[0], el)
+        outs, H, mask = sqm_build(prob)
+        handed = get(outs, first)
+        value = get(outs, target)
+        if not eq(value, fresh[(target[0], tuple(target[1]))]):
+            return "%s%s requested after %s%s differs from a fresh computation" % (OUTS[target[0]], list(target[1]), OUTS[first[0]], list(first[1]))
+        if not eq(handed, fresh[(first[0], tuple(first[1]))]) or not eq(get(outs, first), fresh[(first[0], tuple(first[1]))]):
+            return "%s%s changed after requesting %s%s" % (OUTS[first[0]], list(first[1]), OUTS[target[0]], list(target[1]))
+        if sympy.srepr(mask) != sympy.srepr(mask0) or sympy.srepr(H) != H_before:
+            return "the caller's Hamiltonian / mask expressions were modified"
+    if sympy.srepr(mask0) != mask_before:
+        return "the caller's mask expression was modified"
+    return None
+
+
+def oracle_sq_masked(ctx):
+    rng = ctx.rng
+    evaluations = nontrivial = 0
+    failures, samples = [], []
+    elements = [(w, o) for w in range(3) for o in SQM_ORDERS]
+    allpairs = [(f, t) for f in elements for t in elements if f != t]
+    for k in range(ctx.n(3, 20)):
+        prob = sqm_problem(rng)
+        pairs = rng.sample(allpairs, ctx.n(10, 72))
+        if k == 0:
+            # always: the mask operator a does not occur in H_0, and a first-parameter request precedes a
+            # second-parameter target (and the other way round)
+            prob.update(wa=None, t2="hopNaNb", mask="hop")
+            pairs = [((1, (1, 0)), (0, (0, 1))), ((0, (0, 1)), (2, (1, 0))), ((0, (1, 0)), (1, (0, 1))), ((2, (1, 1)), (0, (0, 1)))] + pairs
+        evaluations += len(pairs)
+        nontrivial += len(pairs)
+        try:
+            what = sqm_check(prob, pairs)
+        except (ValueError, NotImplementedError) as e:
+            samples.append(dict(problem=prob, rejected=str(e)[:120]))
+            continue
+        if what:
+            failures.append(dict(what=what, input=dict(level="sq_masked", problem=prob,
+                                                       pairs=[[[f[0], list(f[1])], [t[0], list(t[1])]] for f, t in pairs])))
+        if len(samples) < 1:
+            samples.append(dict(problem=prob, pairs=len(pairs)))
+    return dict(evaluations=evaluations, nontrivial=nontrivial,
+                rule="second-quantised scalar problems with a partial elimination mask, two parameters: ordered pairs (first request, target) over {H_tilde, U, U†} x {(1,0), (0,1), (1,1)} vs fresh single-request computations, exact symbolic comparison",
+                samples=samples, failures=failures)
+
+
 def replay_input(inp):
+    if inp.get("level") == "sq_masked":
+        return sqm_check(inp["problem"], [((f[0], tuple(f[1])), (t[0], tuple(t[1]))) for f, t in inp["pairs"]])
     if inp.get("level") == "user_products":
         try:
             return up_check(inp["case"], [(n, ix) for n, ix in inp["schedule"]])
